@@ -96,6 +96,8 @@ C20_FailOnlyWhenFull ==
 ASSUME PrintT("META " \o ToJson([Sys |-> "relaygen",
           Extra |-> [MinPort |-> ToString(MinPort), MaxPort |-> ToString(MaxPort), MaxRetries |-> ToString(MaxRetries)]]))
 EmitEdge ==
-  PrintT("EDGE " \o ToJson([s |-> [kind |-> kind, fam |-> fam, bound |-> bound], a |-> last', o |-> out',
+  \* (i: this state is being expanded as an INITIAL state -- the empty state is re-entered when everything is released,
+  \* so the harness cannot recognise the initial states of the six (kind, family) configurations by their in-degree)
+  PrintT("EDGE " \o ToJson([s |-> [kind |-> kind, fam |-> fam, bound |-> bound], a |-> last', o |-> out', i |-> (last.a = "Init"),
                             t |-> [kind |-> kind', fam |-> fam', bound |-> bound']]))
 =============================================================================
